@@ -366,7 +366,7 @@ OpResult Hist::run_op(const HOp& op0) {
     case OP_NEW_CTRL: {
       OpScope S(*this, op, "C04,C03,C13"); unsigned sel = (unsigned)(op.a % 5); uint64_t v = sel == 0 ? 20 : sel == 1 ? 21 : sel == 2 ? 22 : sel == 3 ? 23 : 20 + op.c % 4;
       cbor_item_t* it = nullptr; S.begin(op);
-      if (sel <= 1) it = cbor_build_bool(sel == 1); else if (sel == 2) it = cbor_new_null(); else if (sel == 3) it = cbor_new_undef(); else it = cbor_build_ctrl((uint8_t)v);
+      if (sel <= 1) it = cbor_build_bool(sel == 1); else if (sel == 2) it = cbor_new_null(); else if (sel == 3) it = cbor_new_undef(); else if (op.d & 1) { it = cbor_new_ctrl(); if (it) cbor_set_ctrl(it, (uint8_t)v); } else it = cbor_build_ctrl((uint8_t)v);
       finish_new(S, it, [&]() { int id = new_node(MK_CTRL); nodes[id].val = v; return id; });
       break;
     }
@@ -633,7 +633,7 @@ OpResult Hist::run_op(const HOp& op0) {
           break;
         }
         unsigned char* buf = (unsigned char*)malloc(cap); memset(buf, 0xEE, cap);
-        S.begin(op); size_t wr = cbor_serialize(nodes[x].impl, buf, cap); S.end(); R.executed = true;
+        S.begin(op); size_t wr = (op.d & 8) ? impl_serialize_typed(nodes[x].impl, buf, cap) : cbor_serialize(nodes[x].impl, buf, cap); S.end(); R.executed = true;   // the per-type entry points are public API too
         if (wr != exp.size() || memcmp(buf, exp.data(), exp.size()) != 0) fail("C03", "serialization-differs-from-rfc8949", S.ctx + fmt(": wrote %zu bytes [%s], reference %zu bytes [%s] for %s", wr, to_hex(buf, std::min<size_t>(wr, 24)).c_str(), exp.size(), to_hex(exp.data(), std::min<size_t>(exp.size(), 24)).c_str(), mv_str(to_value(x), 80).c_str()));
         if (S.w.requests) fail("C13", "fixed-buffer-serialization-allocates", S.ctx + ": cbor_serialize made allocator requests");
         free(buf);
